@@ -44,6 +44,8 @@ var pool = []text{
 	{"v1.yang", `module v { ` + H("v") + ` revision 2020-01-01; typedef vt { type int8 { range "1..9"; } units old; default 3; } grouping vg { leaf gold { type vt; } container gc { leaf deep { type string; } } } container vc { leaf old { type vt; } } identity vi; }`, "v@2020-01-01", true},
 	{"v2.yang", `module v { ` + H("v") + ` revision 2021-06-01; revision 2020-01-01; import g { prefix g; } typedef vt { type string { length "1..4"; pattern "a+"; } units new; } grouping vg { leaf gnew { type vt; } leaf-list gll { type vt; } } container vc { leaf new { type vt; } } identity vi; identity vj { base vi; } deviation /g:c/g:x { deviate add { default 5; } } }`, "v@2021-06-01", true},
 	{"w.yang", `module w { ` + H("w") + ` import v { prefix v; revision-date 2020-01-01; } identity wi { base v:vi; } augment /v:vc { leaf wa { type v:vt; } } typedef wt { type v:vt; } leaf wl { type wt; } container wu { uses v:vg; } }`, "w", true},
+	// an importer that names a revision of v which is never loaded: it goes with the latest loaded one
+	{"y.yang", `module y { ` + H("y") + ` import v { prefix v; revision-date 2019-06-01; } identity yi { base v:vi; } container yu { uses v:vg; } augment /v:vc { leaf ya { type string; } } }`, "y", true},
 	{"x.yang", `module x { ` + H("x") + ` import v { prefix v; } identity xi { base v:vi; } typedef xt { type v:vt; } leaf xl { type xt; } leaf xl2 { type v:vt; } container xu { uses v:vg; } grouping xg { uses v:vg; } container xu2 { uses xg; } leaf xr { type identityref { base v:vi; } } }`, "x", true},
 	// two revisions of a submodule, the module that includes it (date-less) and an importer of that module
 	{"sm.yang", `module sm { ` + H("sm") + ` include ss; leaf q { type st; } container smc { uses sg; } }`, "sm", true},
@@ -65,7 +67,7 @@ const (
 var groups = [][]string{
 	{"g.yang", "h.yang", "k.yang", "r.yang", "syntax.yang", "b1.yang", "b2.yang", "gdup.yang", "nomand.yang"},
 	{"g.yang", "gm.yang", "gsub.yang", "h.yang", "b2.yang", "syntax.yang"},
-	{"g.yang", "v1.yang", "v2.yang", "w.yang", "x.yang", "b1.yang"},
+	{"g.yang", "v1.yang", "v2.yang", "w.yang", "x.yang", "y.yang", "b1.yang"},
 	{"sm.yang", "ss1.yang", "ss2.yang", "su.yang", "b1.yang"},
 }
 
@@ -480,7 +482,7 @@ func poolIndex(name string) int {
 // loaded, a processing run - or, once a run has taken place, a read, which builds the trees -
 // follows, and the other revision is loaded after it.
 func lateRevision(h []int) bool {
-	for _, fam := range [][]string{{"v1.yang", "v2.yang", "w.yang", "x.yang"}, {"ss1.yang", "ss2.yang", "sm.yang"}} {
+	for _, fam := range [][]string{{"v1.yang", "v2.yang", "w.yang", "x.yang", "y.yang"}, {"ss1.yang", "ss2.yang", "sm.yang"}} {
 		r1, r2 := poolIndex(fam[0]), poolIndex(fam[1])
 		var users []int
 		for _, n := range fam[2:] {
